@@ -12,6 +12,7 @@ Local Open Scope list_scope.
 Section P6.
   Variable V : Type.
   Variable bin : binop -> V -> V -> V.
+  Variable un : unop -> V -> V.
   Notation snode := (snode V).
   Notation pspec := (pspec V).
   Notation node := (node V).
@@ -116,7 +117,7 @@ Section P6.
     forall_nodes V dict_node_ok2 n = true -> all_occs V (occ_ok V cf) n = true -> wf V (tree V n) ->
     exists n' s, dict_rt V falsy cf n = Ok n' /\ inj_on s (node_ids V n) /\
                  prior_count V (tree V n') = prior_count V (tree V n) /\
-                 forall a : nat -> option V, inst V bin a (tree V n') = inst V bin (fun q => a (s q)) (tree V n).
+                 forall a : nat -> option V, inst V bin un a (tree V n') = inst V bin un (fun q => a (s q)) (tree V n).
   Proof.
     intros HQ HR W.
     assert (HQ' : forall_nodes V (fun m => match dict_pre V cf m with None => true | Some _ => false end) n = true).
@@ -145,7 +146,7 @@ Section P6.
     unfold tree. rewrite (erase_dict_image (look V st') (sigma_of V st') Hs n HQ false).
     assert (W' : wf V (ren V (sigma_of V st') (erase V false n))) by (apply wf_ren; exact W).
     split.
-    - destruct (vector_cn V bin _ [] W') as [_ [Ec _]]. rewrite Ec. apply prior_count_ren.
+    - destruct (vector_cn V bin un _ [] W') as [_ [Ec _]]. rewrite Ec. apply prior_count_ren.
       intros a b Ha Hb. apply Hi; apply (erase_ids_incl V n false); assumption.
     - intro a. rewrite inst_cn. apply inst_ren.
   Qed.
